@@ -23,6 +23,7 @@ import (
 	"errors"
 	"fmt"
 	"sort"
+	"strings"
 
 	"github.com/btcsuite/btcd/btcec/v2"
 	"github.com/btcsuite/btcd/btcec/v2/schnorr"
@@ -32,9 +33,11 @@ import (
 	"github.com/btcsuite/btcd/mempool"
 	"github.com/btcsuite/btcd/txscript"
 	"github.com/btcsuite/btcd/wire"
+	"github.com/btcsuite/btcwallet/wallet"
 	"github.com/btcsuite/btcwallet/wallet/txauthor"
 	"github.com/btcsuite/btcwallet/wallet/txrules"
 	"github.com/btcsuite/btcwallet/wallet/txsizes"
+	"github.com/btcsuite/btcwallet/wtxmgr"
 
 	"verifharness/internal/core"
 	"verifharness/internal/gen"
@@ -52,20 +55,31 @@ type c07Out struct {
 }
 
 type c07Coin struct {
-	K   string `json:"k"` // p2pkh | p2tr | p2wpkh | np2wpkh
+	K   string `json:"k"` // p2pkh | p2tr | p2wpkh | np2wpkh | p2pkh-u (P2PKH of an UNCOMPRESSED key)
 	V   int64  `json:"v"`
 	Key int    `json:"key"` // private key = sha256("c07" || key)
 }
 
 type c07Input struct {
-	Kind   string    `json:"kind"` // author | fee | est | dust
+	Kind   string    `json:"kind"` // author | fee | est | dust | checkout | wallet | changesrc
 	Outs   []c07Out  `json:"outs"`
 	Rate   int64     `json:"rate"`
 	Coins  []c07Coin `json:"coins"`
 	Change string    `json:"change"` // script type of the change output ("" = size 0, est only)
 	Size   int64     `json:"size"`   // fee
 	Counts [4]int    `json:"counts"` // est: p2pkh, p2tr, p2wpkh, nested
-	Value  int64     `json:"value"`  // dust
+	Value  int64     `json:"value"`  // dust, checkout
+	// author: the input source is wallet.constantInputSource (an explicit
+	// selection: always all the coins) instead of wallet.makeInputSource
+	Fixed bool `json:"fixed,omitempty"`
+	// wallet-level cases (wallet.go)
+	API      string  `json:"api,omitempty"`      // create | send | fundpsbt
+	WCoins   []wCoin `json:"wcoins,omitempty"`   // coins paid to the wallet
+	Scope    int     `json:"scope,omitempty"`    // coin selection key scope purpose (0 = none)
+	ChScope  int     `json:"chscope,omitempty"`  // custom change scope purpose (0 = none)
+	Acct     string  `json:"acct,omitempty"`     // default | imported
+	Strategy string  `json:"strategy,omitempty"` // largest | random
+	Sel      []int   `json:"sel,omitempty"`      // explicit selection: indices into the expanded wcoins
 }
 
 type c07Obs struct {
@@ -74,6 +88,7 @@ type c07Obs struct {
 	NIn       int      `json:"nin"`
 	InKinds   []string `json:"in_kinds"`
 	SigLens   []int    `json:"sig_lens"`
+	PkLens    []int    `json:"pk_lens"` // public key length per signed input (0 for P2TR)
 	NOut      int      `json:"nout"`
 	EstSize   int64    `json:"est_size"` // txsizes.EstimateVirtualSize for the inputs of the authored tx
 	TotalIn   int64    `json:"total_in"`
@@ -83,6 +98,12 @@ type c07Obs struct {
 	RealVsize int64    `json:"real_vsize"`
 	Val       int64    `json:"val"`  // fee / est
 	Flag      bool     `json:"flag"` // dust
+	// wallet-level cases
+	WIn    []wCoin   `json:"win"`    // inputs of the transaction, in order (run-length)
+	WOut   []wOutObs `json:"wout"`   // outputs of the transaction, in order (run-length)
+	Arr    []wCoin   `json:"arr"`    // the arrangement / selection offered to the authoring loop
+	ChKind string    `json:"chkind"` // change script type the request asks for
+	ChLen  int       `json:"chlen"`  // length of the change script in the transaction (0 if none)
 }
 
 type c07Case struct {
@@ -160,14 +181,17 @@ func privKey(id int) *btcec.PrivateKey {
 }
 
 // secrets is the in-memory txauthor.SecretsSource: address -> key.
-type secrets struct{ keys map[string]*btcec.PrivateKey }
+type secrets struct {
+	keys         map[string]*btcec.PrivateKey
+	uncompressed map[string]bool
+}
 
 func (s *secrets) GetKey(a btcutil.Address) (*btcec.PrivateKey, bool, error) {
 	k, ok := s.keys[a.EncodeAddress()]
 	if !ok {
 		return nil, false, errors.New("no key for " + a.EncodeAddress())
 	}
-	return k, true, nil
+	return k, !s.uncompressed[a.EncodeAddress()], nil
 }
 func (s *secrets) GetScript(a btcutil.Address) ([]byte, error) {
 	return nil, errors.New("no script for " + a.EncodeAddress())
@@ -184,6 +208,14 @@ func coinScript(k string, key *btcec.PrivateKey, sec *secrets) []byte {
 	switch k {
 	case "p2pkh":
 		addr, err = btcutil.NewAddressPubKeyHash(h160, params)
+	case "p2pkh-u":
+		addr, err = btcutil.NewAddressPubKeyHash(btcutil.Hash160(pub.SerializeUncompressed()), params)
+		if err == nil {
+			if sec.uncompressed == nil {
+				sec.uncompressed = map[string]bool{}
+			}
+			sec.uncompressed[addr.EncodeAddress()] = true
+		}
 	case "p2wpkh":
 		addr, err = btcutil.NewAddressWitnessPubKeyHash(h160, params)
 	case "np2wpkh":
@@ -244,6 +276,8 @@ func specWorstVsize(kinds []string, outLens []int, changeLen int) int64 {
 		switch k {
 		case "p2pkh":
 			base += 32 + 4 + 1 + (1 + 73 + 1 + 33) + 4
+		case "p2pkh-u":
+			base += 32 + 4 + 1 + (1 + 73 + 1 + 65) + 4
 		case "p2wpkh":
 			base += 32 + 4 + 1 + 4
 			wit += 1 + 1 + 73 + 1 + 33
@@ -264,6 +298,22 @@ func specWorstVsize(kinds []string, outLens []int, changeLen int) int64 {
 		wit += 2 + specVarint(nw)
 	}
 	return base + (wit+3)/4
+}
+
+// upperKinds: for the UPPER bounds the oracle states (fee no higher than the
+// rate applied to the worst-case size + one dust threshold; insufficient funds
+// only if the coins cannot cover outputs + required fee) the worst case of a
+// P2PKH input is the one signed with an uncompressed key - an estimator that
+// sizes every P2PKH input for it stays within the property.
+func upperKinds(kinds []string) []string {
+	out := make([]string, len(kinds))
+	for i, k := range kinds {
+		if k == "p2pkh" {
+			k = "p2pkh-u"
+		}
+		out[i] = k
+	}
+	return out
 }
 
 func specDustThreshold(scriptLen int, witness bool) int64 {
@@ -295,15 +345,25 @@ func buildCoins(in c07Input, sec *secrets) []coinInfo {
 	return out
 }
 
-// prefixSource behaves like wallet.makeInputSource: it keeps the inputs handed
-// out so far and extends them, in the fixed arrangement, until the target is met
-// or the coins are exhausted.
-func prefixSource(coins []coinInfo, rounds *int) txauthor.InputSource {
-	total := btcutil.Amount(0)
-	var ins []*wire.TxIn
-	var vals []btcutil.Amount
-	var scripts [][]byte
-	rest := coins
+// realSource is the wallet's own input source over the coins: makeInputSource
+// (automatic selection over an arrangement) or constantInputSource (explicit
+// selection), reached through the verif hooks of package wallet.  The wrapper
+// only counts the calls and stops a loop that no longer makes progress.
+func realSource(coins []coinInfo, fixed bool, rounds *int) txauthor.InputSource {
+	var src txauthor.InputSource
+	if fixed {
+		credits := make([]wtxmgr.Credit, len(coins))
+		for i, c := range coins {
+			credits[i] = wtxmgr.Credit{OutPoint: c.op, Amount: btcutil.Amount(c.c.V), PkScript: c.script}
+		}
+		src = wallet.VerifConstantInputSource(credits)
+	} else {
+		wc := make([]wallet.Coin, len(coins))
+		for i, c := range coins {
+			wc[i] = wallet.Coin{TxOut: wire.TxOut{Value: c.c.V, PkScript: c.script}, OutPoint: c.op}
+		}
+		src = wallet.VerifMakeInputSource(wc)
+	}
 	return func(target btcutil.Amount) (btcutil.Amount, []*wire.TxIn, []btcutil.Amount, [][]byte, error) {
 		*rounds++
 		if *rounds > len(coins)+3 {
@@ -311,16 +371,7 @@ func prefixSource(coins []coinInfo, rounds *int) txauthor.InputSource {
 			// loop that no longer makes progress instead of hanging
 			return 0, nil, nil, nil, errLoop
 		}
-		for total < target && len(rest) != 0 {
-			c := rest[0]
-			rest = rest[1:]
-			op := c.op
-			ins = append(ins, wire.NewTxIn(&op, nil, nil))
-			total += btcutil.Amount(c.c.V)
-			vals = append(vals, btcutil.Amount(c.c.V))
-			scripts = append(scripts, c.script)
-		}
-		return total, ins, vals, scripts, nil
+		return src(target)
 	}
 }
 
@@ -335,7 +386,7 @@ func buildOuts(in c07Input) []*wire.TxOut {
 func countKinds(kinds []string) (p2pkh, p2tr, p2wpkh, nested int) {
 	for _, k := range kinds {
 		switch k {
-		case "p2pkh":
+		case "p2pkh", "p2pkh-u":
 			p2pkh++
 		case "p2tr":
 			p2tr++
@@ -349,7 +400,7 @@ func countKinds(kinds []string) (p2pkh, p2tr, p2wpkh, nested int) {
 }
 
 func runAuthor(in c07Input) (c07Obs, []string, error) {
-	obs := c07Obs{ChangeIdx: -1, InKinds: []string{}, SigLens: []int{}}
+	obs := newObs()
 	var bad []string
 	sec := &secrets{keys: map[string]*btcec.PrivateKey{}}
 	coins := buildCoins(in, sec)
@@ -367,7 +418,7 @@ func runAuthor(in c07Input) (c07Obs, []string, error) {
 		NewScript:  func() ([]byte, error) { return changeScript, nil },
 		ScriptSize: len(changeScript),
 	}
-	atx, err := txauthor.NewUnsignedTransaction(outs, btcutil.Amount(in.Rate), prefixSource(coins, &obs.Rounds), cs)
+	atx, err := txauthor.NewUnsignedTransaction(outs, btcutil.Amount(in.Rate), realSource(coins, in.Fixed, &obs.Rounds), cs)
 
 	var sumOut, sumAll int64
 	for _, o := range in.Outs {
@@ -392,7 +443,7 @@ func runAuthor(in c07Input) (c07Obs, []string, error) {
 			// all offered coins, fee for the worst-case size of the
 			// transaction spending all of them, with a change output).
 			// (the fee rounded UP, so that a rounding choice is not demanded)
-			need := sumOut + (in.Rate*specWorstVsize(allKinds, outLens, len(changeScript))+999)/1000
+			need := sumOut + (in.Rate*specWorstVsize(upperKinds(allKinds), outLens, len(changeScript))+999)/1000
 			if sumAll >= need {
 				bad = append(bad, "spurious_insufficient_funds")
 			}
@@ -415,6 +466,7 @@ func runAuthor(in c07Input) (c07Obs, []string, error) {
 	// inputs: distinct offered coins, reported values/scripts are theirs
 	seen := map[wire.OutPoint]bool{}
 	var sumIn int64
+	var worstKinds []string
 	okInputs := len(atx.PrevScripts) == len(tx.TxIn) && len(atx.PrevInputValues) == len(tx.TxIn)
 	for i, ti := range tx.TxIn {
 		c, ok := byOp[ti.PreviousOutPoint]
@@ -424,7 +476,8 @@ func runAuthor(in c07Input) (c07Obs, []string, error) {
 		}
 		seen[ti.PreviousOutPoint] = true
 		sumIn += c.c.V
-		obs.InKinds = append(obs.InKinds, c.c.K)
+		obs.InKinds = append(obs.InKinds, baseKind(c.c.K))
+		worstKinds = append(worstKinds, c.c.K)
 		if okInputs && (int64(atx.PrevInputValues[i]) != c.c.V || !bytes.Equal(atx.PrevScripts[i], c.script)) {
 			okInputs = false
 		}
@@ -508,6 +561,7 @@ func runAuthor(in c07Input) (c07Obs, []string, error) {
 			return obs, bad, err
 		}
 		hc := txscript.NewTxSigHashes(tx, fetcher)
+		nUnc := int64(0)
 		for i, ti := range tx.TxIn {
 			vm, err := txscript.NewEngine(atx.PrevScripts[i], tx, i, txscript.StandardVerifyFlags, nil, hc,
 				int64(atx.PrevInputValues[i]), fetcher)
@@ -517,22 +571,17 @@ func runAuthor(in c07Input) (c07Obs, []string, error) {
 			if err != nil {
 				return obs, bad, fmt.Errorf("signed input %d does not verify: %v", i, err)
 			}
-			switch obs.InKinds[i] {
-			case "p2pkh":
-				// <sig+hashtype> <pubkey>: first push opcode = its length
-				obs.SigLens = append(obs.SigLens, int(ti.SignatureScript[0])-1)
-			case "p2wpkh", "np2wpkh":
-				obs.SigLens = append(obs.SigLens, len(ti.Witness[0])-1)
-			case "p2tr":
-				obs.SigLens = append(obs.SigLens, len(ti.Witness[0]))
+			sl, pl := sigAndKeyLen(obs.InKinds[i], ti)
+			obs.SigLens = append(obs.SigLens, sl)
+			obs.PkLens = append(obs.PkLens, pl)
+			if pl == 65 {
+				nUnc++
 			}
 		}
 		obs.RealVsize = mempool.GetTxVirtualSize(btcutil.NewTx(tx))
 
-		if obs.Fee < in.Rate*obs.RealVsize/1000 {
-			bad = append(bad, "fee_below_rate")
-		}
-		bound := in.Rate*specWorstVsize(obs.InKinds, outLens, len(changeScript))/1000 +
+		bad = append(bad, feeRateKinds(in.Rate, obs.Fee, obs.RealVsize, nUnc)...)
+		bound := in.Rate*specWorstVsize(upperKinds(worstKinds), outLens, len(changeScript))/1000 +
 			specDustThreshold(len(changeScript), isWitnessType(in.Change))
 		if obs.Fee > bound {
 			bad = append(bad, "fee_above_bound")
@@ -541,8 +590,13 @@ func runAuthor(in c07Input) (c07Obs, []string, error) {
 	return obs, bad, nil
 }
 
+func newObs() c07Obs {
+	return c07Obs{ChangeIdx: -1, TotalIn: -1, InKinds: []string{}, SigLens: []int{}, PkLens: []int{},
+		WIn: []wCoin{}, WOut: []wOutObs{}, Arr: []wCoin{}}
+}
+
 func runUnit(in c07Input) (c07Obs, error) {
-	obs := c07Obs{ChangeIdx: -1, InKinds: []string{}, SigLens: []int{}}
+	obs := newObs()
 	switch in.Kind {
 	case "fee":
 		obs.Val = int64(txrules.FeeForSerializeSize(btcutil.Amount(in.Rate), int(in.Size)))
@@ -552,6 +606,19 @@ func runUnit(in c07Input) (c07Obs, error) {
 			outs, outScriptLen(in.Change)))
 	case "dust":
 		obs.Flag = txrules.IsDustOutput(wire.NewTxOut(in.Value, outScript(in.Change, 7)), txrules.DefaultRelayFeePerKb)
+	case "checkout":
+		switch err := txrules.CheckOutput(wire.NewTxOut(in.Value, outScript(in.Change, 7)), txrules.DefaultRelayFeePerKb); {
+		case err == nil:
+			obs.Val = 0
+		case errors.Is(err, txrules.ErrAmountNegative):
+			obs.Val = 1
+		case errors.Is(err, txrules.ErrAmountExceedsMax):
+			obs.Val = 2
+		case errors.Is(err, txrules.ErrOutputIsDust):
+			obs.Val = 3
+		default:
+			obs.Val = 4
+		}
 	default:
 		return obs, errors.New("unknown case kind " + in.Kind)
 	}
@@ -579,8 +646,19 @@ func bucket(n int) string {
 func tagsOf(in c07Input, obs c07Obs, extra []string) ([]string, string) {
 	tags := append([]string{"kind:" + in.Kind}, extra...)
 	site := in.Kind
+	if in.Kind == "wallet" {
+		return walletTags(in, obs, tags)
+	}
+	if in.Kind == "changesrc" {
+		return append(tags, fmt.Sprintf("chscope:%d", in.ChScope), "acct:"+in.Acct), "changesrc"
+	}
 	if in.Kind != "author" {
 		return tags, site
+	}
+	if in.Fixed {
+		tags = append(tags, "source:constantInputSource")
+	} else {
+		tags = append(tags, "source:makeInputSource")
 	}
 	tags = append(tags, "nout:"+bucket(len(in.Outs)), "change:"+in.Change, fmt.Sprintf("ncoins:%s", bucket(len(in.Coins))))
 	switch {
@@ -594,8 +672,10 @@ func tagsOf(in c07Input, obs c07Obs, extra []string) ([]string, string) {
 		tags = append(tags, "rate:>=1e5")
 	}
 	kinds := map[string]bool{}
+	unc := false
 	for _, c := range in.Coins {
 		kinds[c.K] = true
+		unc = unc || c.K == "p2pkh-u"
 	}
 	if len(kinds) > 1 {
 		tags = append(tags, "coins:mixed")
@@ -628,7 +708,51 @@ func tagsOf(in c07Input, obs c07Obs, extra []string) ([]string, string) {
 	case len(in.Coins) == 1 && in.Coins[0].K == "p2tr":
 		site = "single-p2tr-coin"
 	}
+	if unc {
+		tags = append(tags, "uncompressed-key-coin")
+	}
 	return tags, site
+}
+
+func walletTags(in c07Input, obs c07Obs, tags []string) ([]string, string) {
+	sel := "auto-" + in.Strategy
+	if len(in.Sel) > 0 {
+		sel = "explicit"
+	}
+	tags = append(tags, "api:"+in.API, "select:"+sel, fmt.Sprintf("scope:%d", in.Scope), fmt.Sprintf("chscope:%d", in.ChScope),
+		"acct:"+in.Acct, "change:"+obs.ChKind, "nout:"+bucket(len(in.Outs)))
+	n := 0
+	kinds := map[string]bool{}
+	for _, c := range in.WCoins {
+		n += c.N
+		kinds["wcoin:"+c.K] = true
+	}
+	for k := range kinds {
+		tags = append(tags, k)
+	}
+	tags = append(tags, "ncoins:"+bucket(n))
+	switch {
+	case obs.Err == "insufficient":
+		tags = append(tags, "outcome:insufficient")
+	case strings.HasPrefix(obs.Err, "refused:"):
+		tags = append(tags, "outcome:"+obs.Err)
+	case obs.Err != "":
+		tags = append(tags, "outcome:error")
+	case obs.ChangeIdx >= 0:
+		tags = append(tags, "outcome:change", fmt.Sprintf("change_moved:%v", obs.ChangeIdx != len(in.Outs)))
+	default:
+		tags = append(tags, "outcome:nochange")
+	}
+	if obs.Err == "" {
+		tags = append(tags, "inputs_used:"+bucket(obs.NIn))
+		for _, p := range obs.PkLens {
+			if p == 65 {
+				tags = append(tags, "signed-with-uncompressed-key")
+				break
+			}
+		}
+	}
+	return tags, "wallet:" + in.API
 }
 
 // ---------------------------------------------------------------- generators
@@ -796,10 +920,19 @@ func main() {
 			var obs c07Obs
 			var bad []string
 			var err error
-			if in.Kind == "author" {
+			switch in.Kind {
+			case "author":
 				obs, bad, err = runAuthor(in)
-			} else {
+			case "wallet":
+				obs, bad, err = runWallet(in)
+			case "changesrc":
+				obs, bad, err = runChangeSource(in)
+			default:
 				obs, err = runUnit(in)
+				// no negative and no overflowing amount passes the guard of the entry points
+				if err == nil && in.Kind == "checkout" && obs.Val == 0 && (in.Value < 0 || in.Value > maxSatoshi) {
+					bad = append(bad, "amount_out_of_range")
+				}
 			}
 			if err != nil {
 				return err
@@ -935,10 +1068,45 @@ func main() {
 				return err
 			}
 		}
-		// 4. unit cases of the three helpers
+		// 3b. the same authoring loop over the wallet's OTHER input source
+		// (constantInputSource: an explicit selection is spent whole), and coins
+		// held by an uncompressed key
+		for i := 0; i < c.N/8; i++ {
+			in := randomCase(r, &keyBase)
+			in.Fixed = true
+			if len(in.Coins) > 6 {
+				in.Coins = in.Coins[:6]
+			}
+			if err := emit(in, []string{"random-fixed"}); err != nil {
+				return err
+			}
+		}
+		for i := 0; i < 6; i++ {
+			ch := changeTypes[r.Intn(4)]
+			in := boundaryCase(r, r.Range(1, 3), r.Range(1, 3), ch, []int64{1000, 1000, 5000}[i%3], int64(r.Range(1000, 50000)), &keyBase)
+			in.Coins[len(in.Coins)-1].K = "p2pkh-u"
+			in.Coins[len(in.Coins)-1].V += 40 * in.Rate / 1000 * int64(len(in.Coins))
+			if i%2 == 1 {
+				for j := range in.Coins {
+					if in.Coins[j].K == "p2pkh" {
+						in.Coins[j].K = "p2pkh-u"
+					}
+				}
+			}
+			in.Fixed = i >= 4
+			if err := emit(in, []string{"systematic:uncompressed-key"}); err != nil {
+				return err
+			}
+		}
+		// 3c. wallet-level cases (wallet.go)
+		nw := c.N / 8
+		if err := genWallet(gen.New(c.Seed, 77), thorough, nw, emit); err != nil {
+			return err
+		}
+		// 4. unit cases of the helpers
 		nu := c.N
 		for i := 0; i < nu; i++ {
-			switch i % 3 {
+			switch i % 4 {
 			case 0:
 				size := int64(r.Range(0, 400))
 				if r.Chance(1, 4) {
@@ -975,6 +1143,21 @@ func main() {
 					v = int64(r.Range(0, 2000))
 				}
 				if err := emit(c07Input{Kind: "dust", Value: v, Change: ch}, nil); err != nil {
+					return err
+				}
+			case 3:
+				ch := append([]string{"p2wsh", "p2sh"}, changeTypes...)[r.Intn(6)]
+				dust := specDustThreshold(outScriptLen(ch), isWitnessType(ch))
+				v := dust + int64(r.Range(-3, 3))
+				switch r.Pick(4, 2, 2, 2) {
+				case 1:
+					v = int64(r.Range(-5, 5))
+				case 2:
+					v = maxSatoshi + int64(r.Range(-3, 3))
+				case 3:
+					v = int64(r.Range(0, 100000))
+				}
+				if err := emit(c07Input{Kind: "checkout", Value: v, Change: ch}, nil); err != nil {
 					return err
 				}
 			}
